@@ -1,48 +1,74 @@
-use rs_store::*;
-use std::sync::Arc;
-use std::time::Instant;
+mod digest;
+mod exec;
+mod gen;
+mod gen2;
+mod model;
+mod oracle;
+mod oracle2;
+mod rng;
+mod world;
 
-fn scenario() {
-    let reducer = |s: &i64, a: &i64| DispatchOp::Dispatch(s * 31 + a, None);
-    let store = StoreBuilder::new(0i64)
-        .with_reducer(Box::new(FnReducer::from(reducer)))
-        .with_capacity(2)
-        .build()
-        .unwrap();
-    let s2 = store.clone();
-    let h = simrt::thread::spawn(move || {
-        for i in 0..5 {
-            s2.dispatch(100 + i).unwrap();
+use digest::*;
+
+fn silence_panics() {
+    std::panic::set_hook(Box::new(|info| {
+        let msg = info.payload().downcast_ref::<&str>().map(|s| s.to_string())
+            .or_else(|| info.payload().downcast_ref::<String>().cloned()).unwrap_or_default();
+        // expected traffic: scripted effect panics and the expect() of Effect::Action after close
+        if msg.contains("scripted effect panic") || msg.contains("no dispatch failed") {
+            return;
         }
-    });
-    for i in 0..5 {
-        store.dispatch(i).unwrap();
-    }
-    h.join().unwrap();
-    store.stop();
-    let _ = store.get_state();
+        eprintln!("simcheck: panic in simulated thread {:?}: {} at {:?}", std::thread::current().name(), msg, info.location());
+    }));
 }
 
 fn main() {
-    simrt::pin_to_core(3);
-    let n: u64 = std::env::args().nth(1).map(|s| s.parse().unwrap()).unwrap_or(2000);
-    let t = Instant::now();
-    let mut steps = 0;
-    let mut hashes = std::collections::BTreeSet::new();
-    for seed in 0..n {
-        let mut cfg = simrt::Config::new(seed);
-        cfg.strategy = match seed % 3 { 0 => simrt::Strategy::Uniform, 1 => simrt::Strategy::Sticky(900), _ => simrt::Strategy::Pct{d:2, horizon:500} };
-        cfg.cpus = [1,2,4,16][(seed % 4) as usize];
-        let o = simrt::run(cfg.clone(), scenario);
-        assert_eq!(o.end, simrt::End::Complete, "seed {seed}: {:?}", o.blocked);
-        let o2 = simrt::run(cfg, scenario);
-        assert_eq!(o.schedule_hash, o2.schedule_hash);
-        assert_eq!(o.decisions, o2.decisions);
-        steps += o.steps;
-        hashes.insert(o.schedule_hash);
-        if seed < 3 { println!("seed {seed}: steps {} switches {} clock {} threads {}", o.steps, o.context_switches, o.clock_ns, o.threads_total); }
+    let args: Vec<String> = std::env::args().collect();
+    silence_panics();
+    match args.get(1).map(|s| s.as_str()) {
+        Some("one") => {
+            let fam = &args[2];
+            let seed: u64 = args[3].parse().unwrap();
+            let prog = gen::generate(fam, seed);
+            println!("{}", serde_json::to_string(&prog).unwrap());
+            let rec = exec::run_program(&prog, seed, None, false);
+            for (i, e) in rec.ev.iter().enumerate() {
+                println!("{i:4} t{:<2} {:?}", e.tid, e.k);
+            }
+            println!("{:?} steps={} clock={}", rec.out.end, rec.out.steps, rec.out.clock_ns);
+            let d = Digest::new(&rec);
+            for v in oracle::check_all(&d) {
+                println!("VIOL {:?}", v);
+            }
+        }
+        Some("batch") => {
+            simrt::pin_to_core(2);
+            let fam = &args[2];
+            let from: u64 = args[3].parse().unwrap();
+            let to: u64 = args[4].parse().unwrap();
+            let t = std::time::Instant::now();
+            let (mut steps, mut nv, mut incomplete) = (0u64, 0u64, 0u64);
+            for i in from..to {
+                let seed = rng::run_seed(0xC0FFEE, i);
+                let prog = gen::generate(fam, seed);
+                let rec = exec::run_program(&prog, seed, None, false);
+                steps += rec.out.steps;
+                if rec.out.end != simrt::End::Complete {
+                    incomplete += 1;
+                    if incomplete < 5 { println!("run {i} seed {seed}: {:?} {:?}", rec.out.end, rec.out.blocked); }
+                }
+                let d = Digest::new(&rec);
+                for v in oracle::check_all(&d) {
+                    nv += 1;
+                    if nv < 10 { println!("run {i} seed {seed}: {:?}", v); }
+                }
+            }
+            let n = to - from;
+            println!("{n} runs, {} steps/run, {:.3} ms/run, violations {nv}, incomplete {incomplete}", steps / n.max(1), t.elapsed().as_secs_f64() * 1000.0 / n as f64);
+        }
+        _ => {
+            eprintln!("usage: simcheck one <family> <seed> | batch <family> <from> <to>");
+            std::process::exit(2);
+        }
     }
-    let el = t.elapsed().as_secs_f64();
-    println!("{n} x2 runs, {} steps/run, {:.2} ms/run, {:.2} us/step, {} distinct schedules", steps / n, el * 1000.0 / (2*n) as f64, el*1e6/(2*steps) as f64, hashes.len());
-    let _ = Arc::new(0);
 }
